@@ -375,7 +375,12 @@ class Ctx:
         rdir.mkdir(exist_ok=True)
         for k in self.known_hit:
             print(f"KNOWN-FINDING: property={self.prop} {k['id']} {k['what']}")
+        shown = 0
         for v in self.violations:
+            shown += 1
+            if shown > 6:
+                rc = 1
+                continue
             body = dict(v["replay"])
             body["property"] = self.prop
             body["what"] = v["what"]
